@@ -1261,6 +1261,7 @@ class partition_unique(Stream):
         if len(self._buffer) == self.n:
             result, self._buffer = tuple(self._buffer.values()), {}
             metadata_result, self._metadata_buffer = list(self._metadata_buffer.values()), {}
+            metadata_result = [m for ml in metadata_result for m in ml]
             ret = self._emit(result, metadata_result)
             self._release_refs(metadata_result)
             return ret
